@@ -39,6 +39,9 @@ Coverage table (statement clause / quantifier dimension -> where it is explored 
                                             the initial history (tags created later are loose)
   otherwise refs untouched, exit signals    exit classes ok / nothing (8) / error; stale, dirty, invalid => non-zero in both modes
                                             -> which of 8 / 1 is used is left open (the statement says "or")
+  refs that are no tags                     Branch: refs/heads/<vN | vN.M.P> (also as the current branch) and refs/remotes/origin/<vN>
+                                            next to, or instead of, the tag of the same short name   -> refs/notes, refs/stash,
+                                            refs/<vN> directly under refs/ are absent
   histories                                 breadth-first to 3 (quick) / 4 (thorough) actions from a forked 3-commit history +
                                             simulated 6 / 10 step histories with 3 / 5 invocations each
 
@@ -414,6 +417,7 @@ def replay(case, ci, tmpl, tools, workdir, variant):
                 raise MachineryError(f"case {ci}: checkout of unknown commit {op['c']}")
             tip = [ln.split("\t")[0][len("refs/heads/"):] for ln in o["_other"]["refs"]
                    if ln.startswith("refs/heads/") and ln.split("\t")[1] == sha[0]]
+            tip = [t for t in tip if t in ("main", "side")]       # never a branch that is named like a tag (ambiguous)
             if tip and (ci + si) % 2 == 0:
                 pre.append(f"git checkout -q {tip[0]}")          # HEAD attached to the branch whose tip it is
             else:
@@ -435,6 +439,13 @@ def replay(case, ci, tmpl, tools, workdir, variant):
                     raise MachineryError(f"tag name {nm!r} outside the harness' safe alphabet")
             pre.append(f"git tag {op['name']} refs/tags/{op['src']}")   # src is annotated: both refs share ONE tag object
             ev = {"op": "alias", "name": op["name"], "src": op["src"]}
+        elif kind == "branch":
+            if not re.fullmatch(r"[A-Za-z0-9._+-]+", op["name"]):
+                raise MachineryError(f"branch name {op['name']!r} outside the harness' safe alphabet")
+            pre.append({"branch": f"git branch {op['name']}",                       # refs/heads/<tag name>
+                        "current": f"git checkout -q -b {op['name']}",              # ... with HEAD attached to it
+                        "remote": f"git update-ref refs/remotes/origin/{op['name']} HEAD"}[op["where"]])
+            ev = {"op": "branch", "name": op["name"], "where": op["where"]}
         elif kind == "touch":
             k = op["kind"]
             if k == "modified":
@@ -572,7 +583,7 @@ def replay(case, ci, tmpl, tools, workdir, variant):
         verdicts.append({"sig": {"kind": why, "flag": op["flag"], "dirty": pre["dirty"], "exit": exit_class,
                                  "permitted": op["permitted"], "packed": packed, "moved_tag": "+".join(moved) or "none"},
                          "detail": {"case": ci, "step": si, "version": version, "initial_version": case["version"], "layout": layout, "packed": packed,
-                                    "history": [{k: v for k, v in x.items() if k in ("op", "name", "kind", "c", "flag", "version", "src")}
+                                    "history": [{k: v for k, v in x.items() if k in ("op", "name", "kind", "c", "flag", "version", "src", "where")}
                                                 for x in case["ops"][:si + 1]],
                                     "allowed_by_contract": op["allowed"], "observed_before": pub(before),
                                     "observed_after": pub(o), "exit_code": log[-1]["code"], "ref_changes": diff,
@@ -685,7 +696,7 @@ def run_replay(ctx, path):
             ctx.violation({"kind": "trace-rejected-after-drift", "flag": at["flag"], "exit": at["exit"]},
                           {"rejected_event": at, "oplog": res["events"], "case_export": case, "variant": list(variant)})
     ctx.cov["traces_validated_against_impl"] += 1
-    ctx.sample({"history": [{k: v for k, v in x.items() if k in ("op", "name", "kind", "c", "flag", "version", "src")} for x in case["ops"]],
+    ctx.sample({"history": [{k: v for k, v in x.items() if k in ("op", "name", "kind", "c", "flag", "version", "src", "where")} for x in case["ops"]],
                 "tool": res["log"], "observed_after": res["events"][-1]["obs"]})
     return {"level": "model_checking", "exhaustive": False}
 
@@ -881,7 +892,7 @@ def run(ctx):
     picks = [i for i in order if results[i]["stats"]["tagged"]][:2] + [i for i in order if len(cases[i]["ops"]) >= 3][-2:]
     for i in picks[:4]:
         ctx.sample({"version": cases[i]["version"], "layout": variants[i][0], "packed_refs": variants[i][1],
-                    "history": [{k: v for k, v in x.items() if k in ("op", "name", "kind", "c", "flag", "version", "src")} for x in cases[i]["ops"]],
+                    "history": [{k: v for k, v in x.items() if k in ("op", "name", "kind", "c", "flag", "version", "src", "where")} for x in cases[i]["ops"]],
                     "contract_allows": cases[i]["ops"][-1].get("allowed"),
                     "real_tool": results[i]["log"][-1] if results[i]["log"] else None,
                     "observed_after": results[i]["events"][-1]["obs"]})
